@@ -288,6 +288,8 @@ class Engine(object):
                 else:
                     stats['paths'] += 1
                     stats['exits']['cut'] = stats['exits'].get('cut', 0) + 1
+                    if getattr(self, 'on_cut', None):
+                        self.on_cut(ctx)          # vacuity probe at the end of a loop-body / prefix path
             except Undecided as u:
                 stats['undecided'].append('%s [%s]' % (u, ' '.join(ctx.trace[-4:])))
             except (RecursionError, KeyError, AttributeError, TypeError, IndexError, ValueError, z3.Z3Exception) as ex:
